@@ -11,6 +11,7 @@ import (
 	"fmt"
 	"io"
 	"io/ioutil"
+	"reflect"
 	"strings"
 )
 
@@ -38,6 +39,57 @@ type printer struct {
 	buf         strings.Builder
 	comments    map[string][]*commentBlock
 	lastComment SourceLoc
+	// How many times each comment text attached to a node has been written.
+	written map[string]int
+}
+
+func (self *printer) noteWritten(comment string) {
+	if self.written == nil {
+		self.written = make(map[string]int)
+	}
+	self.written[comment]++
+}
+
+// dumpUnwritten writes, at the end of the output, the comments which are
+// attached to some node below root but were not written with it, for example
+// because the node is in a place where no comments are printed (an element of
+// a collection which is formatted on a single line, an empty block).  No
+// comment of the source is dropped.
+func (self *printer) dumpUnwritten(root nodeContainer, skipIncludes bool) {
+	var pending []string
+	var visit func(node nodeContainer)
+	take := func(comment string) {
+		if self.written[comment] > 0 {
+			self.written[comment]--
+		} else {
+			pending = append(pending, comment)
+		}
+	}
+	visit = func(node nodeContainer) {
+		for _, sub := range node.getSubnodes() {
+			if sub == nil || reflect.ValueOf(sub).IsNil() {
+				continue
+			}
+			if _, ok := sub.(*Include); ok && skipIncludes {
+				// The directives are not written, nor are their comments.
+				continue
+			}
+			if n := sub.getNode(); n != nil {
+				for _, c := range n.scopeComments {
+					take(c.Value)
+				}
+				for _, c := range n.Comments {
+					take(c)
+				}
+			}
+			visit(sub)
+		}
+	}
+	visit(root)
+	for _, comment := range pending {
+		self.buf.WriteString(comment)
+		self.buf.WriteString(NEWLINE)
+	}
 }
 
 func (self *printer) printComments(node *AstNode, prefix string) {
@@ -61,6 +113,7 @@ func (self *printer) printComments(node *AstNode, prefix string) {
 		self.buf.WriteString(prefix)
 		self.buf.WriteString(c.Value)
 		self.buf.WriteString(NEWLINE)
+		self.noteWritten(c.Value)
 	}
 	if len(node.scopeComments) > 0 {
 		self.buf.WriteString(NEWLINE)
@@ -69,6 +122,7 @@ func (self *printer) printComments(node *AstNode, prefix string) {
 		self.buf.WriteString(prefix)
 		self.buf.WriteString(c)
 		self.buf.WriteString(NEWLINE)
+		self.noteWritten(c)
 	}
 	self.lastComment = node.Loc
 }
@@ -197,6 +251,8 @@ func (self *Ast) format(writeIncludes bool) string {
 		self.Call.format(&printer, "")
 	}
 
+	// Comments attached to a node which was printed without them.
+	printer.dumpUnwritten(self, !writeIncludes)
 	// Any comments which went at the ends of a file, after any nodes.
 	printer.DumpComments()
 	return printer.String()
